@@ -736,7 +736,7 @@ fn read_block_fields<const HS: usize, const CHECK: u8>() {
     forget(records);
 }
 
-//@ harness props=C03,C06,C07 tier=quick unwind=6 unwindset=update_table:300,ref_crc32.0:10,ref_crc32.1:300,default_read_exact:4,decompress:4,scripted_block_header:5,read_block_fields:5,spec_fill:8200 mem_gb=12 timeout=900 native=no
+//@ harness props=C03,C06,C07 tier=thorough optional=yes unwind=6 unwindset=update_table:300,ref_crc32.0:10,ref_crc32.1:300,default_read_exact:4,decompress:4,scripted_block_header:5,read_block_fields:5,spec_fill:8200 mem_gb=12 timeout=900 native=no
 //@ bound: read_block with the header parser replaced by its contract: 12-byte header, no check; symbolic header CRC field, declared sizes (or absent), block padding bytes, 2 payload bytes (one uncompressed LZMA2 chunk)
 #[cfg_attr(kani, kani::proof)]
 #[cfg_attr(kani, kani::stub(std::fmt::format, crate::verif_common::stub_format))]
@@ -748,7 +748,7 @@ pub fn xzblk_read_block_fields_hs3_chk0() {
     read_block_fields::<3, 0>()
 }
 
-//@ harness props=C03,C06,C07 tier=quick unwind=6 unwindset=update_table:300,ref_crc32.0:10,ref_crc32.1:300,default_read_exact:4,decompress:4,scripted_block_header:5,read_block_fields:5,spec_fill:8200 mem_gb=12 timeout=900 native=no
+//@ harness props=C03,C06,C07 tier=thorough optional=yes unwind=6 unwindset=update_table:300,ref_crc32.0:10,ref_crc32.1:300,default_read_exact:4,decompress:4,scripted_block_header:5,read_block_fields:5,spec_fill:8200 mem_gb=12 timeout=900 native=no
 //@ bound: read_block with the header parser replaced by its contract: 12-byte header, CRC32 check field symbolic; symbolic header CRC field, declared sizes (or absent), block padding bytes, 2 payload bytes (one uncompressed LZMA2 chunk)
 #[cfg_attr(kani, kani::proof)]
 #[cfg_attr(kani, kani::stub(std::fmt::format, crate::verif_common::stub_format))]
@@ -760,7 +760,7 @@ pub fn xzblk_read_block_fields_hs3_chk1() {
     read_block_fields::<3, 1>()
 }
 
-//@ harness props=C03,C06,C07 tier=quick unwind=6 unwindset=update_table:300,ref_crc32.0:10,ref_crc32.1:300,default_read_exact:4,decompress:4,scripted_block_header:5,read_block_fields:5,spec_fill:8200 mem_gb=12 timeout=900 native=no
+//@ harness props=C03,C06,C07 tier=thorough optional=yes unwind=6 unwindset=update_table:300,ref_crc32.0:10,ref_crc32.1:300,default_read_exact:4,decompress:4,scripted_block_header:5,read_block_fields:5,spec_fill:8200 mem_gb=12 timeout=900 native=no
 //@ bound: read_block with the header parser replaced by its contract: 256-byte header (size byte 0x40), no check; symbolic header CRC field, declared sizes (or absent), block padding bytes, 2 payload bytes (one uncompressed LZMA2 chunk)
 #[cfg_attr(kani, kani::proof)]
 #[cfg_attr(kani, kani::stub(std::fmt::format, crate::verif_common::stub_format))]
